@@ -87,6 +87,7 @@ def _host_config(cfg) -> dict:
         return (canon(lcd), since, now == 0)
 
     seen = {key_of(init, 0): []}
+    reached = [(init, 0, [])]
     frontier = deque([(init, 0, 0, 0)])  # lcd, now, last_step_time, steps
     trans = 0
     violation = None
@@ -129,6 +130,27 @@ def _host_config(cfg) -> dict:
             if k not in seen:
                 seen[k] = hist + [d]
                 frontier.append((nxt, t, nlast, nsteps))
+                reached.append((nxt, t, hist + [d]))
+    # termination does not depend on frames changing: from EVERY reachable state a non-looping animation is
+    # inactive after at most bound_steps on-time ticks
+    if violation is None and not loop:
+        step = max(speed, 1)
+        for lcd0, t0, hist in reached:
+            if not anim(lcd0).active:
+                continue
+            probe = copy.deepcopy(lcd0)
+            t = t0
+            for _ in range(bound_steps(length, cols) + 2):
+                t += step
+                probe.tick(t)
+                trans += 1
+                if not anim(probe).active:
+                    break
+            else:
+                violation = {"subject": subject, "deltas": hist + [step] * (bound_steps(length, cols) + 2),
+                             "message": f"non-looping animation still active after {bound_steps(length, cols) + 2} on-time ticks from a reachable state",
+                             "config": {"style": style, "length": length, "cols": cols, "loop": loop, "speed": speed}}
+                break
     return {"subject": subject, "states": len(seen), "transitions": trans, "violation": violation}
 
 
@@ -213,6 +235,14 @@ def gen_device(tier: str) -> Iterator[dict]:
                         for t0 in (0, 777):
                             for s in schedules(horizon, speed, dev_bound if speed else 0, False):
                                 runs.append({"passes": len(s), "adv": s, "t0": t0})
+                        if speed:
+                            # timestamps just below the top of the unsigned long range (still positive and increasing: the
+                            # counter would roll over <margin> ms AFTER the last pass): on-time ticks and ticks that come
+                            # twice too early, ending on an early tick
+                            for margin in (1, 10, 49):
+                                runs.append({"passes": horizon, "adv": [speed] * horizon, "t0": 0, "wrap": speed * horizon + margin})
+                                for n_half in (2 * horizon, 2 * horizon + 1, 4, 5, 6, 7):
+                                    runs.append({"passes": n_half, "adv": [speed // 2] * n_half, "t0": 0, "wrap": (speed // 2) * n_half + margin})
                         yield {"id": f"A:{style}:{cols}x{rows}:len{length}:loop{int(loop)}:sp{speed}", "space": "A", "src": anim_script(style, text, cols, rows, loop, speed), "runs": runs,
                                "anims": [{"style": style, "len": length, "loop": loop, "speed": speed, "row": 0}], "geom": [cols, rows], "lcds": 1}
     # 16x2 with realistic texts, both wirings
@@ -239,6 +269,14 @@ def gen_device(tier: str) -> Iterator[dict]:
     helper = common.script(["lcd = LCD(i2c_addr=39, cols=6, rows=2)", 'lcd.line(1, "ZZZZZZ")', "def go():", '    lcd.animate("blink", 0, "ab", speed_ms=100, loop=True)', "go()"], ['mon.write("u")'], prologue=PRO)
     yield {"id": "AL:helper-started", "space": "A", "src": helper, "runs": [{"passes": len(s), "adv": s, "t0": 0} for s in schedules(12, 100, 1, False)],
            "anims": [{"style": "blink", "len": 2, "loop": True, "speed": 100, "row": 0}], "geom": [6, 2], "lcds": 1}
+    # every subset of start sites (setup line, helpers called from setup, loop body, helper called from the loop) x
+    # style per site x one / two displays: each started animation keeps its own state and keeps advancing
+    from . import c05
+
+    for case in c05.gen_anim_sites(tier):
+        case = dict(case, id="S" + case["id"][1:], space="S")
+        case["runs"] = [dict(r, adv=[120] * r["passes"]) for r in case["runs"]]
+        yield case
     for style in STYLES:
         cont = anim_script(style, "abcdef", 4, 2, True, 100, extra=["n = 0"], body=["n += 1", "if n % 2 == 0:", "    continue", "mon.write(n)"])
         yield {"id": f"AC:{style}:continue", "space": "A", "src": cont, "runs": [{"passes": len(s), "adv": s, "t0": 0} for s in schedules(16, 100, 1, False)],
@@ -307,6 +345,13 @@ def judge(case, tr, dev_runs, host_runs):
     for idx, (run, dr) in enumerate(zip(case["runs"], dev_runs)):
         if not dr.ok:
             return "violation", f"run {idx}: firmware did not run cleanly: {dr.faults[:2]} exit={dr.exit_code}"
+        if case.get("space") == "S":
+            from . import c05
+
+            err = c05.anim_site_monitor(case, dr)
+            if err:
+                return "violation", f"start sites: {err}"
+            continue
         err = device_monitor(case, run, dr)
         if err:
             return "violation", f"run {idx} schedule adv={run['adv']} t0={run.get('t0', 0)}: {err}"
